@@ -22,16 +22,20 @@ RULES = {
     "none": [],
     "missing": ["missing"],
     "missing_sibling": ["missing"],
+    "missing_unregistered": ["missing"],      # an existing constructor of the application loses its registration
     "missing_shadowed": ["missing"],          # only visible from the route's scope (known finding)
     "cycle1": ["cycle"],
     "cycle2": ["cycle"],
     "cycle3": ["cycle"],
+    "cycle_back_edge": ["cycle"],             # a constructor of the application takes a type that (transitively) needs it
     "cycle_shadowed": ["cycle"],              # only visible from the route's scope (known finding)
     "singleton_dep_request": ["singleton_dep"],
     "singleton_dep_transitive": ["singleton_dep"],
     "singleton_two_nests_same": ["singleton_once"],
     "singleton_two_nests_diff": ["singleton_multi"],
-    "singleton_not_send": ["not_send_sync"],
+    "singleton_not_send": ["not_send"],
+    "singleton_not_sync": ["not_sync"],
+    "singleton_not_send_sync": ["not_send", "not_sync"],
     "singleton_by_value": ["singleton_by_value"],
     "mut_singleton": ["mut_singleton"],
     "mut_transient": ["mut_transient"],
@@ -361,7 +365,12 @@ def plant(rng, base, rule):
     info = {"rule": rule, "expect": RULES[rule]}
     ok = _plant(rng, spec, t, place, rule, info, M)
     if ok is False:
-        return None
+        fb = {"cycle_back_edge": "cycle2", "missing_unregistered": "missing"}.get(rule)
+        if fb is None:
+            return None
+        info["fallback"] = fb   # the application has no place for this variant: plant the plain one
+        if _plant(rng, spec, t, place, fb, info, M) is False:
+            return None
     spec["tree"] = t.build()
     spec["bp"] = t.flatten(spec["name"].upper())
     spec["planted"] = info
@@ -391,6 +400,39 @@ def _plant(rng, spec, t, place, rule, info, M):
             t.ops[s].insert(0, ["ctor", a])
             place[("c", a)] = s
         info["victim"] = list(v[:3])
+        return True
+
+    if rule == "missing_unregistered":
+        u = used_ctors(spec)
+        cand = [c for c in spec["ctors"] if c["i"] in u and not c["fallible"]]
+        if not cand:
+            return False
+        c = rng.choice(cand)
+        s = place[("c", c["i"])]
+        t.ops[s] = [op for op in t.ops[s] if op != ["ctor", c["i"]]]
+        info["victim"] = ["c", c["i"], s]
+        info["depth"] = 0
+        return True
+
+    if rule == "cycle_back_edge":
+        # constructors i -> ... -> j (i needs j) registered against the same blueprint: let j take &T_i
+        def needs(i):
+            seen, todo = set(), [x for x, _ in spec["ctors"][i]["ins"]]
+            while todo:
+                j = todo.pop()
+                if j not in seen:
+                    seen.add(j)
+                    todo += [x for x, _ in spec["ctors"][j]["ins"]]
+            return seen
+        u = used_ctors(spec)
+        pairs = [(i, j) for i in u for j in needs(i)
+                 if place[("c", i)] == place[("c", j)] and spec["ctors"][i]["life"] != "singleton" and spec["ctors"][j]["life"] != "singleton"]
+        if not pairs:
+            return False
+        i, j = rng.choice(pairs)
+        spec["ctors"][j]["ins"].append([i, "ref"])
+        info["victim"] = ["c", j, place[("c", j)]]
+        info["depth"] = 0
         return True
 
     if rule in ("missing_shadowed", "cycle_shadowed"):
@@ -484,8 +526,9 @@ def _plant(rng, spec, t, place, rule, info, M):
         info["mode"] = mode
         return True
 
-    if rule == "singleton_not_send":
-        send, sync = rng.choice([(False, False), (True, False), (False, True)])
+    if rule in ("singleton_not_send", "singleton_not_sync", "singleton_not_send_sync"):
+        send, sync = {"singleton_not_send": (False, True), "singleton_not_sync": (True, False),
+                      "singleton_not_send_sync": (False, False)}[rule]
         s = rng.randrange(len(t.parent))
         names = [xtype(spec) for _ in range(depth)] + [xtype(spec, send=send, sync=sync)]
         hx = xcomp(spec, "handler", methods=["GET"], path="/%s/ns" % M, ins=[[names[0], "ref"]])
